@@ -366,6 +366,20 @@ func (c *CEnv) evalBin(n *CBin) (TT, error) {
 	case "&&", "||", "==>", "<==>":
 		return boolOp(n.Op)
 	case "==", "!=":
+		if (a.Sort == "Real" && b.Sort == SInt) || (a.Sort == SInt && b.Sort == "Real") {
+			ra, rb := a.S, b.S
+			if a.Sort == SInt {
+				ra = "(to_real " + a.S + ")"
+			}
+			if b.Sort == SInt {
+				rb = "(to_real " + b.S + ")"
+			}
+			r := T(SBool, "(= %s %s)", ra, rb)
+			if n.Op == "!=" {
+				r = not(r)
+			}
+			return TT{r, nil}, nil
+		}
 		if a.Sort != b.Sort {
 			return TT{}, fmt.Errorf("comparing %s with %s in %s", a.Sort, b.Sort, n)
 		}
@@ -374,6 +388,21 @@ func (c *CEnv) evalBin(n *CBin) (TT, error) {
 			r = not(r)
 		}
 		return TT{r, nil}, nil
+	}
+	if a.Sort == "Real" || b.Sort == "Real" {
+		ra, rb := a.S, b.S
+		if a.Sort == SInt {
+			ra = "(to_real " + a.S + ")"
+		}
+		if b.Sort == SInt {
+			rb = "(to_real " + b.S + ")"
+		}
+		switch n.Op {
+		case "<", "<=", ">", ">=":
+			return TT{T(SBool, "(%s %s %s)", n.Op, ra, rb), nil}, nil
+		case "+", "-", "*":
+			return TT{T("Real", "(%s %s %s)", n.Op, ra, rb), nil}, nil
+		}
 	}
 	if a.Sort == SF64 && b.Sort == SF64 {
 		ops := map[string]string{"<": "fp.lt", "<=": "fp.leq", ">": "fp.gt", ">=": "fp.geq"}
@@ -705,6 +734,64 @@ func (c *CEnv) evalCall(n *CCall) (TT, error) {
 			return TT{T(SInt, "(mod %s 18446744073709551616)", x.S), types.Typ[types.Uint64]}, nil
 		}
 		return TT{x.Term, nil}, nil
+	case "real":
+		// exact real value of a finite float or of an integer
+		x, err := c.eval(n.Args[0])
+		if err != nil {
+			return TT{}, err
+		}
+		switch x.Sort {
+		case SF64:
+			return TT{T("Real", "(fp.to_real %s)", x.S), nil}, nil
+		case SInt:
+			return TT{T("Real", "(to_real %s)", x.S), nil}, nil
+		}
+		return TT{}, fmt.Errorf("real() of %s", x.Sort)
+	case "fconst":
+		// fconst(n): the double equal to the integer literal n (which must be exactly representable)
+		lit, ok := n.Args[0].(*CLit)
+		neg := false
+		if u, isU := n.Args[0].(*CUn); isU && u.Op == "-" {
+			lit, ok = u.X.(*CLit)
+			neg = true
+		}
+		if !ok {
+			return TT{}, fmt.Errorf("fconst() needs an integer literal")
+		}
+		v, ok2 := new(big.Int).SetString(lit.V, 0)
+		if !ok2 {
+			return TT{}, fmt.Errorf("fconst(): bad literal")
+		}
+		if neg {
+			v.Neg(v)
+		}
+		f, acc := new(big.Float).SetInt(v).Float64()
+		if acc != big.Exact {
+			return TT{}, fmt.Errorf("fconst(%s) is not exactly representable", v)
+		}
+		return TT{fpLit(f), types.Typ[types.Float64]}, nil
+	case "isnan", "isinf", "isfinite":
+		x, err := c.eval(n.Args[0])
+		if err != nil {
+			return TT{}, err
+		}
+		if x.Sort != SF64 {
+			return TT{}, fmt.Errorf("%s() of non-float", n.Fn)
+		}
+		switch n.Fn {
+		case "isnan":
+			return TT{T(SBool, "(fp.isNaN %s)", x.S), nil}, nil
+		case "isinf":
+			return TT{T(SBool, "(fp.isInfinite %s)", x.S), nil}, nil
+		}
+		return TT{T(SBool, "(and (not (fp.isNaN %s)) (not (fp.isInfinite %s)))", x.S, x.S), nil}, nil
+	case "truncf":
+		// truncation of a finite float towards zero, as an unbounded integer
+		x, err := c.eval(n.Args[0])
+		if err != nil {
+			return TT{}, err
+		}
+		return TT{T(SInt, "(ite (fp.isNegative %s) (- (to_int (fp.to_real (fp.abs %s)))) (to_int (fp.to_real %s)))", x.S, x.S, x.S), nil}, nil
 	case "tag":
 		x, err := c.eval(n.Args[0])
 		if err != nil {
